@@ -115,23 +115,29 @@ class _Control(BaseException):
 
 # how a history is spelled on the implementation side; the model does not distinguish the spellings
 EXC_CLASSES = [RuntimeError, KeyboardInterrupt, _Control, GeneratorExit, SystemExit, ArithmeticError]
-VARIANT = {"exc": RuntimeError, "decorator": False}
+# values an unknown option name is passed with: the name alone decides that the call is rejected (seeded change C14-8)
+BAD_VALUES = [1, None, 0, False, "", ()]
+VARIANT = {"exc": RuntimeError, "decorator": False, "bad_value": 1}
+
+
+def kw_of(pairs):
+    return {k: (VARIANT["bad_value"] if k == "no_such_option" else v) for k, v in pairs}
 
 
 def exec_impl(prog, log, defaults):
     for st in prog:
         k = st[0]
         if k == "set":
-            numpoly.set_options(**dict(st[1]))
+            numpoly.set_options(**kw_of(st[1]))
         elif k == "with":
             if VARIANT["decorator"]:
                 # the decorator spelling of the same block
-                @numpoly.global_options(**dict(st[1]))
+                @numpoly.global_options(**kw_of(st[1]))
                 def body():
                     exec_impl(st[2], log, defaults)
                 body()
             else:
-                with numpoly.global_options(**dict(st[1])):
+                with numpoly.global_options(**kw_of(st[1])):
                     exec_impl(st[2], log, defaults)
         elif k == "try":
             try:
@@ -187,9 +193,11 @@ def programs(maxlen):
 def check_one(ctx, seq, prog, model, saved, shipped, variant=0):
     VARIANT["exc"] = EXC_CLASSES[variant % len(EXC_CLASSES)]
     VARIANT["decorator"] = (variant // len(EXC_CLASSES)) % 2 == 1
+    VARIANT["bad_value"] = BAD_VALUES[(variant // (2 * len(EXC_CLASSES)) + variant) % len(BAD_VALUES)]
     log, outcome, final = run_impl(prog, saved, shipped)
     case = {"events": list(seq), "prog": prog, "variant": variant,
-            "spelling": {"exception": VARIANT["exc"].__name__, "decorator": VARIANT["decorator"]}}
+            "spelling": {"exception": VARIANT["exc"].__name__, "decorator": VARIANT["decorator"],
+                         "unknown_option_value": repr(VARIANT["bad_value"])}}
     tags = ["history"]
     init = opts_key(saved)
     mlog = [sorted(map(tuple, o)) for o in model["log"]]
